@@ -145,7 +145,7 @@ func c19SchedulesOpt(r *run.Run, name, rule string, font *sfnt.Font, inputs []st
 			if res.Steps == 0 && res.Spawned == 0 && lineClause {
 				explore.Fatal("C19: the builder package is not instrumented (scheduler seam missing)")
 			}
-			if res.Spawned > 1 {
+			if res.Spawned > 1 || !lineClause {
 				c.Nontrivial()
 			}
 			c.Outcome(in, fmt.Sprint(res.Trace))
